@@ -70,7 +70,7 @@ def value_of(s):
         return {A[s["k"]]: A[s["v"]]}
     if sh == "nest":
         k, v = A[s["k"]], A[s["v"]]
-        return {"o": {k: [v, {k: v}]}, "l": [[v], []]}
+        return {"o": {k: [v, {k: v}]}, "l": [[v], []], "m": [{k: v}, v, [{k: v}, 1]]}     # arrays of mixed element kinds, either order
     if sh == "tables":
         k, v = A[s["k"]], A[s["v"]]
         # sub-tables, arrays of tables, and empty tables / arrays in every position
